@@ -240,6 +240,7 @@ func runC05(e *Engine, r *Report, tier string) {
 
 	// ---------- R2 ----------
 	n2 := 0
+	var cancelFns []*ssa.Function
 	for _, fn := range e.Funcs {
 		if isAuxPkg(fnPkgPath(fn)) || isGenesisOrUpgrade(fn) {
 			continue
@@ -320,6 +321,7 @@ func runC05(e *Engine, r *Report, tier string) {
 		}
 		// (b) cancel: set(0x18) + delete(0x20)
 		if len(setCalls) > 0 && len(del20) > 0 {
+			cancelFns = append(cancelFns, fn)
 			n2++
 			ck := e.FnKey(fn) + " cancel"
 			okAll := true
@@ -450,6 +452,69 @@ func runC05(e *Engine, r *Report, tier string) {
 	}
 	if n2 < 3 {
 		r.Fail("R2", "anchors", "", fmt.Sprintf("UNRESOLVED-ANCHOR: only %d of picker/cancel/executed/builder found", n2))
+	}
+	// (e) cancel-target: the batch handed to the cancel routine is the batch that the dominating decision was about —
+	// the one on the lower side of `older.BatchNonce < executed.BatchNonce`, or the one whose own BatchTimeout was tested.
+	for _, cf := range cancelFns {
+		for _, cs := range e.CallSites(cf) {
+			if isAuxPkg(fnPkgPath(cs.Caller)) {
+				continue
+			}
+			var nonceArg ssa.Value
+			for _, a := range nonCtxArgs(cs.Call) {
+				if b, ok := a.Type().Underlying().(*types.Basic); ok && b.Kind() == types.Uint64 {
+					nonceArg = a
+				}
+			}
+			ck := e.FnKey(cs.Caller) + " -> " + e.FnKey(cf) + " target"
+			if nonceArg == nil {
+				r.Undecided("R2", ck, e.InstrPos(cs.Call), "no nonce argument found at the cancel call")
+				continue
+			}
+			nk := vkey(nonceArg, 0)
+			verdict, why := 0, ""
+			for _, g := range GuardsOf(cs.Call) {
+				ci, ok := NormCond(g)
+				if !ok || ci.X == nil || ci.Y == nil {
+					continue
+				}
+				lo, hi := ci.X, ci.Y
+				switch ci.Op {
+				case "<", "<=":
+				case ">", ">=":
+					lo, hi = hi, lo
+				default:
+					continue
+				}
+				lk, hk := vkey(lo, 0), vkey(hi, 0)
+				switch {
+				case strings.HasSuffix(lk, ".BatchNonce") && strings.HasSuffix(hk, ".BatchNonce"):
+					if nk == lk {
+						verdict, why = 1, "cancels the batch whose nonce is below the executed batch's ("+lk+" < "+hk+")"
+					} else if verdict == 0 {
+						verdict, why = -1, "the decision is `"+lk+" < "+hk+"` but the batch cancelled is "+nk+": the executed batch itself (or an unrelated one) returns to the pool although it was paid out"
+					}
+				case strings.HasSuffix(lk, ".BatchTimeout") || strings.HasSuffix(hk, ".BatchTimeout"):
+					tk := lk
+					if !strings.HasSuffix(tk, ".BatchTimeout") {
+						tk = hk
+					}
+					if nk == strings.TrimSuffix(tk, ".BatchTimeout")+".BatchNonce" {
+						verdict, why = 1, "cancels the batch whose own timeout was tested ("+tk+")"
+					} else if verdict == 0 {
+						verdict, why = -1, "the decision tests "+tk+" but the batch cancelled is "+nk
+					}
+				}
+			}
+			switch verdict {
+			case 1:
+				r.Ok("R2", ck, e.InstrPos(cs.Call), why)
+			case -1:
+				r.Fail("R2", ck, e.InstrPos(cs.Call), why)
+			default:
+				r.Fail("R2", ck, e.InstrPos(cs.Call), "the cancel call is not guarded by a decision about the batch it cancels (older than the executed one, or timed out)")
+			}
+		}
 	}
 
 	// ---------- R3 / R4: pool cancel ----------
